@@ -13,6 +13,7 @@ type DevAnswer struct {
 
 type DevPort struct {
 	Regs        map[uint16]DevAnswer
+	RawRegs     map[uint16][]byte // registers answered with these raw bytes instead of a well-formed Get response
 	Id          uint16
 	NoPing      bool              // silent at ping
 	NoId        bool              // silent at the device-id query
@@ -61,7 +62,11 @@ func (d *DevPort) Write(b []byte) (int, error) {
 			}
 			if a, ok := d.Regs[addr]; ok && (d.SilentAfter < 0 || d.answered < d.SilentAfter) {
 				d.answered++
-				d.queue = append(d.queue, simGet(addr, a.Flag, a.Payload)...)
+				if raw, isRaw := d.RawRegs[addr]; isRaw {
+					d.queue = append(d.queue, raw...)
+				} else {
+					d.queue = append(d.queue, simGet(addr, a.Flag, a.Payload)...)
+				}
 			} else if ok && d.DieMidFrame && d.answered == d.SilentAfter {
 				d.answered++ // the device dies in the middle of this frame
 				f := simGet(addr, a.Flag, a.Payload)
